@@ -171,7 +171,12 @@ def check(chk):
         iv, cv = src(gen_.target.elts[0]), src(gen_.target.elts[1])
         return src(key_) == '%s.name' % cv and src(val_) == iv
     maps_ = [st for st in body_walk(fm) if isinstance(st, ast.Assign) and src(st.targets[0]) == 'statement_indexes']
-    chk.judge(len(maps_) == 1 and _is_index_map(maps_[0].value) and 'partition_key_columns = table_meta.partition_key' in s, 'C30.pk', fm,
+    from ..sem import elementwise as _ew30
+    ew_ = _ew30(fm).get('statement_indexes', [])
+    # comprehension, dict(generator) or an empty dict filled in a loop: {column name: position} over enumerate(column_metadata)
+    map_ok = (len(maps_) == 1 and _is_index_map(maps_[0].value)) or \
+        (len(ew_) == 1 and ew_[0][0] == ('dict', 'enumerate(column_metadata)', ('_e1.name', '_e0')))
+    chk.judge(map_ok and 'partition_key_columns = table_meta.partition_key' in s, 'C30.pk', fm,
               'statement_indexes maps column name -> bind position; key columns from table_meta.partition_key', 'index map / key column source changed')
     chk.judge('except KeyError' in s, 'C30.pk', fm, 'a missing key component leaves routing_key_indexes None', 'partial key produces a routing key')
     calls = [n for n in body_walk(fm) if isinstance(n, ast.Call) and src(n.func) == 'PreparedStatement']
